@@ -18,6 +18,7 @@ Python sources mirrored (pinned in harness/c06.py):
                                        list_install_plan (exclude_*), write_intro_info
   mesonbuild/dependencies/base.py      Dependency.__init__ (`name = f'dep{uuid4().int}'`)
   mesonbuild/depfile.py                DepFile.get_all_dependencies
+  mesonbuild/modules/pkgconfig.py      DependenciesHelper.format_vreq, format_reqs
   mesonbuild/compilers/compilers.py    CompileResult, Compiler.cached_compile;  mixins/gnu.py GnuCompiler.has_arguments
 Core Lean only (no Mathlib): this file is compiled into the native driver.
 -/
@@ -102,11 +103,19 @@ def ninjaWrite (rules : List Str) (builds : List BuildElem) : Except EmitError S
 
 /-! ### exe-wrapper pickle name (`meson_exe_<basename>_<sha1>.dat`) -/
 
-/-- the bytes `EnvironmentVariables.hash` feeds to the hasher; `env` = items of `get_env({})` in
-dict iteration order (keys distinct) -/
-def envHashInput (env : List (Str × Str)) : Str :=
-  (sortedStrs (env.map Prod.fst)).flatMap fun k =>
-    k ++ [','] ++ ((env.lookup k).getD []) ++ [';']
+/-- one recorded operation of an `EnvironmentVariables` object: (method name, variable, values, separator) -/
+structure EnvOp where
+  kind : Str
+  name : Str
+  values : List Str
+  sep : Str
+  deriving Repr, DecidableEq
+
+/-- the bytes `EnvironmentVariables.hash` feeds to the hasher (after cc8eeba):
+`repr((ops, sorted(self.unset_vars)))` — the operations are a list in program order, `unset_vars` is a
+set (`unsetIter` = its iteration order).  `R` is Python's `repr` of that pair (opaque). -/
+def envHashInput (R : List EnvOp × List Str → Str) (ops : List EnvOp) (unsetIter : List Str) : Str :=
+  R (ops, sortedStrs unsetIter)
 
 /-- things that vary between runs / call sites but are not content of the serialisation -/
 structure GenCtx where
@@ -114,9 +123,9 @@ structure GenCtx where
   fresh : Nat → Str
 
 /-- `H` is the SHA-1 hex digest (opaque); reprs are `str(es.cmd_args)` etc. -/
-def wrapperName (H : Str → Str) (_ctx : GenCtx) (basename : Str) (env : Option (List (Str × Str)))
-    (cmdArgsRepr workdirRepr captureRepr feedRepr : Str) : Str :=
-  let e := match env with | some v => envHashInput v | none => []
+def wrapperName (H : Str → Str) (R : List EnvOp × List Str → Str) (_ctx : GenCtx) (basename : Str)
+    (env : Option (List EnvOp × List Str)) (cmdArgsRepr workdirRepr captureRepr feedRepr : Str) : Str :=
+  let e := match env with | some v => envHashInput R v.1 v.2 | none => []
   "meson_exe_".toList ++ basename ++ ['_'] ++ H (e ++ cmdArgsRepr ++ workdirRepr ++ captureRepr ++ feedRepr)
     ++ ".dat".toList
 
@@ -300,6 +309,27 @@ def reachN (df : List (Str × List Str)) : Nat → List Str → List Str
 
 def getAllDependencies (df : List (Str × List Str)) (name : Str) : List Str :=
   sortedSet ((reachN df df.length [name]).flatMap (depsAt df))
+
+/-! ### `DependenciesHelper.format_reqs` (modules/pkgconfig.py): the `Requires:` lines of a .pc file -/
+
+/-- `format_vreq`: '>=1.0' becomes '>= 1.0' (first matching operator of the fixed list) -/
+def formatVreq (v : Str) : Str :=
+  match ([">=", "<=", "!=", "==", "=", ">", "<"].map String.toList).find? (fun op => op.isPrefixOf v) with
+  | some op => op ++ [' '] ++ v.drop op.length
+  | none => v
+
+/-- `format_reqs(reqs)`: `reqs` is the ordered list of required names; `vreqs name` is the iteration order
+of the *set* `version_reqs[name]` (`[]` when absent or empty) -/
+def formatReqs (reqs : List Str) (vreqs : Str → List Str) : Str :=
+  join ", ".toList (reqs.flatMap fun name =>
+    if (vreqs name).isEmpty then [name]
+    else (sortedStrs (vreqs name)).map fun v => name ++ [' '] ++ formatVreq v)
+
+/-- on record, not the code: the same without `sorted()` -/
+def formatReqsUnsorted (reqs : List Str) (vreqs : Str → List Str) : Str :=
+  join ", ".toList (reqs.flatMap fun name =>
+    if (vreqs name).isEmpty then [name]
+    else (vreqs name).map fun v => name ++ [' '] ++ formatVreq v)
 
 /-! ### cached compiler checks: `Compiler.cached_compile`, `coredata.compiler_check_cache` -/
 
